@@ -104,7 +104,8 @@ def memR (decls : List Decl) (exact : Bool) : Nat → Ty → JsVal → Option Bo
   | 0, _, _ => none
   | n+1, t, v =>
     match t with
-    | .kw "null" | .kw "undefined" => some (match v with | .null | .undef => true | _ => false)   -- reading S1: null ≈ undefined
+    | .kw "null" => some (match v with | .null => true | _ => false)
+    | .kw "undefined" => some (match v with | .undef => true | _ => false)
     | .kw "boolean" => some (match v with | .bool _ => true | _ => false)
     | .kw "number" => some (match v with | .num _ => true | _ => false)
     | .kw "string" => some (match v with | .str _ => true | _ => false)
@@ -392,16 +393,25 @@ def excludeMembers (decls : List Decl) (a : Ty) : List Ty :=
     | [x] => [x]
     | xs => [.inter xs]
 
-/-- `v ∈ Exclude<A, B>`: some member of A that is not assignable to B contains v (structurally).
-`none` when assignability of a relevant member could not be settled by the enumeration. -/
+/-- `Exclude<A, B>` is bracketed, not pinned down: beff computes the set difference and drops the negations it cannot
+express at run time, TypeScript filters the union members.
+* lower bound (must be accepted): an exact value of some member of A that is not a value of B;
+* upper bound (may be accepted): a value of a member of A that is not assignable to B as a whole.
+`some true` = in the lower bound, `some false` = outside the upper bound, `none` = in between, or not settled. -/
 def memExclude (decls : List Decl) (a b : Ty) (v : JsVal) : Option Bool :=
-  anyO (fun m =>
+  let members := excludeMembers decls a
+  let inLower := members.any fun m => memR decls true 40 m v == some true && Spec.mem decls 200 b v == some false
+  let upper := anyO (fun m =>
     match Spec.mem decls 200 m v with
     | some true =>
       let verdict := inclusion decls m b
       if !verdict.included then some true
       else if verdict.complete then some false else none
-    | other => other) (excludeMembers decls a)
+    | other => other) members
+  if inLower then some true
+  else match upper with
+    | some false => some false
+    | _ => none
 
 /-- declared keys and "has a string index signature" of an object-like type; unions keep the common keys -/
 def keysOfTy (decls : List Decl) (t : Ty) : Option (List String × Bool) :=
